@@ -32,8 +32,6 @@ TRUSTED = oracle.TRUSTED
 
 # reasoned exceptions for R12.1 (write-then-read at call time that cannot make results history dependent)
 LATCHES = {
-    ("typelib.marshals.api.DelayedMarshaller.resolved", "_resolved"): "write-once latch of marshaller(self.t), a function of self.t only",
-    ("typelib.unmarshals.api.DelayedUnmarshaller.resolved", "_resolved"): "write-once latch of unmarshaller(self.t), a function of self.t only",
     ("typelib.marshals.api.DelayedMarshaller.resolved", "setattr(self, …)"): "copies the resolved routine's slots once, values are functions of self.t only",
     ("typelib.unmarshals.api.DelayedUnmarshaller.resolved", "setattr(self, …)"): "copies the resolved routine's slots once, values are functions of self.t only",
     ("typelib.ctx.TypeContext.__missing__", "self[...]"): "memo of the value just looked up under the queried key (verified by R16.4)",
@@ -119,6 +117,24 @@ def reads_self_attr(prog, cls, attr, within: set[str]) -> list[str]:
     return sorted(set(out))
 
 
+def write_once_latch(prog: Program, f, attr: str) -> bool:
+    """`self.<attr>` is stored only on paths guarded by `self.<attr> is None`, and what is stored is a memoised routine
+    factory applied to a term over self.t alone (the name of the attribute is immaterial)."""
+    memo = prog.memoised_functions()
+    found = False
+    for p in P.paths_of(prog, f):
+        for e in p.events:
+            if e[0] == "setattr" and e[1] == C.SELF and e[2] == attr:
+                found = True
+                unset = any(val and a == ("cmp", "is", ("attr", C.SELF, attr), ("const", None)) for a, val in T.derive_atoms(p.guards()))
+                v = e[3]
+                fac = v[0] == "call" and T.refname(v[1]) in memo and T.refname(v[1]).rsplit(".", 1)[-1] in ("marshaller", "unmarshaller")
+                pure = fac and all(x == C.SELF or x == ("attr", C.SELF, "t") or x[0] in ("ref", "call", "const") for a in v[2] for x in T.walk(a) if x[0] in ("param", "attr", "name", "local", "unknown"))
+                if not (unset and fac and pure):
+                    return False
+    return found
+
+
 def r12_1(prog: Program, rep: Report, ct):
     n = 0
     for q in sorted(ct):
@@ -131,6 +147,9 @@ def r12_1(prog: Program, rep: Report, ct):
             key = (q, loc)
             if key in LATCHES:
                 rep.held("R12.1", q, f.loc, f"call-time write of {loc}: {LATCHES[key]}", detail=loc)
+                continue
+            if kind == "self" and loc.isidentifier() and write_once_latch(prog, f, loc):
+                rep.held("R12.1", q, f.loc, f"call-time write of {loc}: write-once latch (stored only where `self.{loc} is None`) of a memoised factory applied to a function of self.t", detail="<latch>")
                 continue
             if kind in ("self", "self-container") and f.cls is not None:
                 attr = loc
@@ -488,6 +507,13 @@ def r12_8(prog: Program, rep: Report):
                     base = c[1][1]
                     if cached(base):
                         bad.append(f".{c[1][2]}() on {'a component of ' if base[0] != 'call' else ''}the cached result of {cached(base)}")
+            # `x = cached(); x -= other`: an augmented assignment updates a mutable container in place
+            for e in p.events:
+                if e[0] == "assign" and e[2][0] == "binop" and e[2][1].endswith("=") and e[2][1] not in ("==", "!=", "<=", ">="):
+                    cq = cached(e[2][2])
+                    g = prog.functions.get(cq) if cq else None
+                    if g is not None and mutable_result(prog, g):
+                        bad.append(f"`{e[2][1]}` on the cached result of {cq}, which {mutable_result(prog, g)}")
         if bad:
             n += 1
             rep.violated("R12.8", q, f.loc, f"mutates a memoised result in place ({sorted(set(bad))[0]}): every later consumer of that cache entry sees the change", detail="cached-mutation")
